@@ -559,9 +559,18 @@ func runC11(c *Ctx, r *Report) {
 					}
 					for _, op := range in.Operands(nil) {
 						if f, ok := (*op).(*ssa.Function); ok {
-							if call, isCall := in.(ssa.CallInstruction); !(isCall && call.Common().Value == *op) {
-								taken[f] = true
+							call, isCall := in.(ssa.CallInstruction)
+							if isCall && call.Common().Value == *op {
+								continue
 							}
+							// handed to a library function (slices.ContainsFunc(args, f)): it is called from here
+							if isCall {
+								if lib := call.Common().StaticCallee(); lib != nil && !isModuleSSA(lib) {
+									callers[f] = append(callers[f], fn)
+									continue
+								}
+							}
+							taken[f] = true
 						}
 					}
 				})
